@@ -915,6 +915,32 @@ func bodyC32Limit(l *c32Limit, x *vkit.Ctx) {
 			x.Violationf("fitting-tags-rejected", "tag map whose encoding is %d bytes (<= %d) was rejected: %v", size, memberlist.MetaMaxSize, err)
 			return
 		}
+		// "accepted only if it fits": a rejected set must not have taken effect
+		// either. What the node would advertise next is what memberlist asks the
+		// delegate for (NodeMeta panics when the tags in effect exceed the limit).
+		if !l.ViaCreate && n != nil {
+			var meta []byte
+			var p any
+			func() {
+				defer func() { p = recover() }()
+				meta = n.Serf.VerifDelegate().NodeMeta(memberlist.MetaMaxSize)
+			}()
+			if p != nil {
+				x.Violationf("rejected-tags-took-effect", "SetTags rejected a %d-byte tag set, but the node now panics when memberlist asks for its metadata: %v", size, p)
+				return
+			}
+			prev := map[string]string{"role": "r"}
+			if l.PV >= 3 {
+				var wm map[string]string
+				if len(meta) < 1 || meta[0] != serf.VerifTagMagicByte || mpDec(meta[1:], &wm) != nil || !eqLoose(wm, prev) {
+					x.Violationf("rejected-tags-took-effect", "SetTags rejected the tag set, but the node would now advertise %s instead of its previous tags", hexShort(meta))
+					return
+				}
+			} else if string(meta) != prev["role"] {
+				x.Violationf("rejected-tags-took-effect", "SetTags rejected the tag set, but the node would now advertise role %q instead of %q", meta, prev["role"])
+				return
+			}
+		}
 	}
 	x.NonTrivial(d >= -8 && d <= 8)
 }
